@@ -15,6 +15,7 @@ VARIABLE l
 
 Check(e) ==
     CASE e.kind = "simplify" -> SimplifyContract(e)
+      [] e.kind = "create" -> CreateContract(e)
       [] OTHER -> Verdict(<<"unknown_event_kind">>, <<>>, -1)
 
 Report(e) ==
